@@ -785,8 +785,18 @@ fn drain() -> bool {
     // the notification of one clock advance (shuttle has a scheduling point there); every
     // further advance repeats it. Holds of the schedule policy are finite in choice points and
     // every iteration consumes some, so this loop ends; the cap is a backstop.
+    // every timer that was started has ended its wait (timed out or cancelled): a timer thread
+    // that has not even begun to wait yet (never cancelled, and held back by the schedule) is
+    // not a sleeper, but it will be one
+    let all_done = || {
+        SIM.with(|s| {
+            let mut s = s.borrow_mut();
+            s.sync_timers();
+            (0..s.call_seq as usize).all(|i| i < s.timers.len() && (s.timers[i].timed_out || s.timers[i].cancelled))
+        })
+    };
     for _ in 0..50_000 {
-        if simtime::sleepers() == 0 {
+        if simtime::sleepers() == 0 && all_done() {
             // one more round so that a timer thread that just left its wait can run its thunk
             shuttle::thread::yield_now();
             shuttle::thread::yield_now();
